@@ -40,7 +40,7 @@ class Screen608:
     self.states = []  # snapshot after each event
     self.probes = {}
     self.suppressed = []  # frames of words ignored as redundant copies
-    self.reused = set()  # id() of row buffers that a PAC re-addressed while they held content
+    self.reused = {}  # id() of row buffers that a PAC re-addressed while they held content -> set of relations
     self.states_reused = []  # per event: displayed rows that were written over earlier content
 
   # ---------------------------------------------------------------- helpers
@@ -61,6 +61,12 @@ class Screen608:
       row = mem.get(self.row)
       if row is not None:
         row[self.col - 1] = None
+
+  def _mark_reused(self, cells, col):
+    """a PAC addresses column `col` of a row that already holds content: left of it, at its start, or inside / right of it"""
+    first = min(i for i, c in enumerate(cells) if c is not None) + 1
+    rel = "left" if col < first else ("start" if col == first else "inside")
+    self.reused.setdefault(id(cells), set()).add(rel)
 
   def snapshot(self):
     out = {}
@@ -106,7 +112,7 @@ class Screen608:
     """a word that acts on the displayed memory (or on its cursor / pen in the direct modes)"""
     self.events.append({"first": frame, "last": frame, "kind": kind, "code": w})
     self.states.append(self.snapshot())
-    self.states_reused.append(sorted(r for r, cells in self.disp.items() if id(cells) in self.reused))
+    self.states_reused.append(dict((r, sorted(self.reused[id(cells)])) for r, cells in self.disp.items() if id(cells) in self.reused))
 
   def _code(self, b1, b2, frame):
     w = (b1, b2)
@@ -133,11 +139,11 @@ class Screen608:
         self._probe("pac_in_rollup")
         if 15 in self.disp and any(c is not None for c in self.disp[15]):
           self._probe("pac_on_reused_row")
-          self.reused.add(id(self.disp[15]))
+          self._mark_reused(self.disp[15], col)
       else:
         if rk in self._mem() and any(c is not None for c in self._mem()[rk]):
           self._probe("pac_on_reused_row")
-          self.reused.add(id(self._mem()[rk]))
+          self._mark_reused(self._mem()[rk], col)
         self.row = rk
         self.col = col
       kind = "pac"
